@@ -431,6 +431,31 @@ theorem cornerPoints_spec (t : Ty) (b : Box n) (hr : b.Rep t) (hs : ∀ i : Fin 
       · simpa using t.rep_zero
       · simpa using this
 
+/-- for an unsigned type no guard on the size is needed: the wrapped product and sum land on the `max` coordinate
+    again, also for inverted boxes. -/
+theorem cornerPoints_unsigned (t : Ty) (hu : t.signed = false) (b : Box n) (hr : b.Rep t) :
+    cornerPoints t b =
+      .ok ((List.range (2 ^ n)).map fun j => Vector.ofFn fun i : Fin n => if j.testBit i then b.max[i] else b.min[i]) := by
+  unfold cornerPoints
+  rw [bitStrings_eq, mapM_ok _ (fun c => ((vadd b.min ((vmul c ((vsub b.max b.min).map (· % 2 ^ t.bits))).map (· % 2 ^ t.bits))).map (· % 2 ^ t.bits)))]
+  · rw [List.map_map]
+    congr 1
+    apply List.map_congr_left
+    intro j _
+    apply vec_ext
+    intro i
+    have h1 := t.emod_of_rep hu (hr i).1
+    have h2 := t.emod_of_rep hu (hr i).2
+    simp only [Function.comp, bitVec, Fin.getElem_fin, vadd_get, vmul_get, vsub_get, Vector.getElem_ofFn, Vector.getElem_map] at *
+    split
+    · rw [Int.one_mul, Int.emod_emod, Int.add_emod_emod]
+      have e : b.min[i.val] + (b.max[i.val] - b.min[i.val]) = b.max[i.val] := by omega
+      rw [e, h2]
+    · simp [h1]
+  · intro c _
+    rw [size_unsigned t hu]
+    simp only [bind, Except.bind, Ty.normV_unsigned t hu]
+
 /-- there are 2^n corners; the first is `pos`, every corner lies in the closed hull of a box with `pos ≤ max`,
     and each of its coordinates is a coordinate of `pos` or of `max`. -/
 theorem cornerPoints_props (t : Ty) (b : Box n) (hr : b.Rep t) (hs : ∀ i : Fin n, t.Rep (b.max[i] - b.min[i])) :
@@ -454,6 +479,29 @@ theorem cornerPoints_props (t : Ty) (b : Box n) (hr : b.Rep t) (hs : ∀ i : Fin
     simp only [Fin.getElem_fin, Vector.getElem_ofFn] at *
     split <;> omega
 
+/-- the corner points are exactly the vertices: the points each of whose coordinates is the `pos` or the `max` coordinate. -/
+theorem mem_cornerPoints (t : Ty) (b : Box n) (hr : b.Rep t) (hs : ∀ i : Fin n, t.Rep (b.max[i] - b.min[i])) (c : Vec n) :
+    (∃ l, cornerPoints t b = .ok l ∧ c ∈ l) ↔ ∀ i : Fin n, c[i] = b.min[i] ∨ c[i] = b.max[i] := by
+  rw [cornerPoints_spec t b hr hs]
+  constructor
+  · rintro ⟨l, hl, hc⟩ i
+    cases hl
+    obtain ⟨j, _, rfl⟩ := List.mem_map.1 hc
+    simp only [Fin.getElem_fin, Vector.getElem_ofFn]
+    split <;> simp
+  · intro h
+    refine ⟨_, rfl, ?_⟩
+    obtain ⟨j, hj, hb⟩ := exists_testBit (fun i => if hi : i < n then decide (c[i] ≠ b.min[i]) else false) n
+    refine List.mem_map.2 ⟨j, by simpa using hj, ?_⟩
+    apply vec_ext
+    intro i
+    have := h i
+    simp only [Fin.getElem_fin, Vector.getElem_ofFn, hb i.val i.isLt, i.isLt, dite_true] at *
+    by_cases e : c[i.val] = b.min[i.val]
+    · simp [e]
+    · simp only [ne_eq, e, not_false_eq_true, decide_true, if_true]
+      omega
+
 /-! ## comparison -/
 
 /-- `==` is equality of the two corners (sizes representable). -/
@@ -475,6 +523,42 @@ theorem eq_spec (t : Ty) (a b : Box n) (ha : ∀ i : Fin n, t.Rep (a.max[i] - a.
         have h' := congrArg (fun v : Vec n => v[i]) h
         simp only [Fin.getElem_fin, vsub_get] at *
         omega
+    · intro e; rw [e]
+  · have : vecEq a.min b.min = false := by
+      rw [← Bool.not_eq_true, vecEq_iff]; exact h
+    have hne : a ≠ b := fun e => h (by rw [e])
+    simp [this, hne, pure, Except.pure]
+
+/-- unsigned: also for inverted boxes, whose sizes wrap around, `==` is equality of the corners
+    (the wrapped size together with `pos` still determines `max`). -/
+theorem eq_unsigned (t : Ty) (hu : t.signed = false) (a b : Box n) (ha : a.Rep t) (hb : b.Rep t) :
+    eq t a b = .ok (decide (a = b)) := by
+  unfold eq
+  by_cases h : a.min = b.min
+  · rw [(vecEq_iff _ _).2 h, size_unsigned t hu, size_unsigned t hu]
+    simp only [if_true, bind, Except.bind, pure, Except.pure]
+    congr 1
+    rw [Bool.eq_iff_iff, vecEq_iff]
+    simp only [decide_eq_true_eq]
+    constructor
+    · intro hv
+      apply box_ext
+      · intro i; rw [h]
+      · intro i
+        have h0 := congrArg (fun v : Vec n => v[i]) hv
+        have h' := congrArg (fun v : Vec n => v[i]) h
+        have h1 := t.emod_of_rep hu (ha i).2
+        have h2 := t.emod_of_rep hu (hb i).2
+        simp only [Fin.getElem_fin, vsub_get, Vector.getElem_map] at *
+        have e1 : ((a.max[i.val] - a.min[i.val]) % 2 ^ t.bits + a.min[i.val]) % 2 ^ t.bits = a.max[i.val] := by
+          rw [Int.emod_add_emod]
+          have : a.max[i.val] - a.min[i.val] + a.min[i.val] = a.max[i.val] := by omega
+          rw [this, h1]
+        have e2 : ((b.max[i.val] - b.min[i.val]) % 2 ^ t.bits + b.min[i.val]) % 2 ^ t.bits = b.max[i.val] := by
+          rw [Int.emod_add_emod]
+          have : b.max[i.val] - b.min[i.val] + b.min[i.val] = b.max[i.val] := by omega
+          rw [this, h2]
+        rw [← e1, ← e2, h0, h']
     · intro e; rw [e]
   · have : vecEq a.min b.min = false := by
       rw [← Bool.not_eq_true, vecEq_iff]; exact h
